@@ -1,12 +1,389 @@
-use crate::util::Report;
-use crate::Ctx;
-use serde_json::Value;
+//! C14 — derived transmission parameters are those of RFC 6330 4.3.
 
-pub fn run(_ctx: &Ctx, _rep: &mut Report) {
-    eprintln!("not implemented yet");
-    std::process::exit(2);
+use crate::reference as rf;
+use crate::util::{catch, fnv_u64s, run_sharded, Report, SplitMix, Stats};
+use crate::Ctx;
+use proptest::prelude::*;
+use raptorq::{Decoder, EncoderBuilder, ObjectTransmissionInformation};
+use serde_json::{json, Value};
+
+#[derive(Debug, Clone, PartialEq)]
+pub struct Case {
+    f: u64,
+    p: u16,
+    ws: u64,
+    /// a second, larger-or-equal memory budget for the monotonicity relation
+    ws2: u64,
 }
 
-pub fn replay(_sub: &str, _case: &Value) -> Result<(), String> {
-    Err("not implemented".into())
+fn al_of(p: u16) -> u64 {
+    if p >= 64 {
+        8
+    } else {
+        1
+    }
+}
+
+fn table_kprimes() -> Vec<u64> {
+    rf::tables().t2.iter().map(|r| r.0 as u64).collect()
+}
+
+/// Raw generated ingredients; the case is *constructed* from them so that it lies in the
+/// property's domain (KL(N_max) defined, Z <= 255) whenever possible.
+fn strategy() -> impl Strategy<Value = Case> {
+    let p = prop_oneof![
+        3 => 1u16..=70,
+        2 => prop_oneof![Just(63u16), Just(64u16), Just(65u16), Just(71u16), Just(72u16)],
+        2 => 64u16..=2000,
+        2 => 1u16..=65535,
+        1 => prop_oneof![Just(65535u16), Just(65528u16), Just(1024u16), Just(1023u16), Just(1025u16), Just(127u16), Just(128u16), Just(129u16), Just(255u16), Just(256u16), Just(257u16), Just(511u16), Just(512u16), Just(513u16)],
+    ];
+    (p, any::<u64>(), any::<u64>(), any::<u64>(), 0u8..10, 0u8..8, -2i64..=2, -2i64..=2).prop_map(
+        |(p, r1, r2, r3, ws_mode, f_mode, dws, df)| {
+            let al = al_of(p);
+            let ss = al;
+            let t = (p as u64) - (p as u64) % al;
+            let n_max = (t / (ss * al)).max(1);
+            let kps = table_kprimes();
+            let sub = |n: u64| (t + al * n - 1) / (al * n);
+            let min_ws = 10 * al * sub(n_max);
+            let adj = |base: u64, d: i64| -> u64 {
+                if d < 0 {
+                    base.saturating_sub((-d) as u64)
+                } else {
+                    base.saturating_add(d as u64)
+                }
+            };
+            let pick_n = 1 + r2 % n_max;
+            let pick_kp = kps[(r3 % kps.len() as u64) as usize];
+            let ws = match ws_mode {
+                // exactly at / next to the budget that admits K' = pick_kp with pick_n sub-blocks
+                0 | 1 => adj(pick_kp * al * sub(pick_n), dws),
+                // exactly at / next to the budget for N_max
+                2 => adj(pick_kp * al * sub(n_max), dws),
+                // smallest admissible budget and its neighbours
+                3 => adj(min_ws, dws),
+                // quotient WS/(Al*sub) around a multiple of 2^32 (narrowing hazards)
+                4 => adj(((1 + r2 % 64) << 32).saturating_mul(al * sub(pick_n)), dws),
+                5 => adj((1u64 << 32).saturating_mul(al * sub(n_max)), dws),
+                // log-uniform over the whole u64 range above the minimum
+                6 | 7 => {
+                    let bits = 1 + r2 % 64;
+                    let v = if bits == 64 { r3 | (1 << 63) } else { (1u64 << (bits - 1)) | (r3 & ((1u64 << (bits - 1)) - 1)) };
+                    v.max(min_ws)
+                }
+                8 => u64::MAX - (r2 % 3),
+                // the library default
+                _ => 10 * 1024 * 1024,
+            }
+            .max(1);
+            let ws2 = match r1 % 4 {
+                0 => ws,
+                1 => ws.saturating_add(1 + r3 % 1000),
+                2 => ws.saturating_mul(2 + r3 % 5),
+                _ => ws.saturating_add(r3 >> (r3 % 64)),
+            };
+            // F relative to the block structure the reference derives
+            let klm = rf::kl(ws, t, al, n_max).unwrap_or(10);
+            let z_target = 1 + r1 % 255;
+            let max_f = 255u128 * klm as u128 * t as u128;
+            let f = match f_mode {
+                // exactly Z full blocks of KL(N_max) symbols, +- a few bytes / symbols
+                0 => adj(z_target * klm * t, df),
+                1 => adj(z_target * klm * t, df * t as i64),
+                // uniform inside the domain
+                2 | 3 => 1 + (r3 as u128 % max_f) as u64,
+                // small objects
+                4 => 1 + r3 % (4 * t).max(1),
+                5 => 1 + r3 % 100_000,
+                // around block-size boundaries of Table 2
+                6 => adj(pick_kp * t, df),
+                _ => adj(max_f.min(u64::MAX as u128) as u64, -(r3 as i64 % 3).abs()),
+            }
+            .max(1);
+            Case { f, p, ws, ws2 }
+        },
+    )
+}
+
+fn in_domain(c: &Case) -> Option<rf::Derived> {
+    let al = al_of(c.p);
+    let d = rf::derive(c.f, c.p as u64, c.ws, al, al)?;
+    if d.z == 0 || d.z > 255 {
+        return None;
+    }
+    // F in 1..=56403*255*T
+    if c.f < 1 || c.f as u128 > 56403u128 * 255 * d.t as u128 {
+        return None;
+    }
+    Some(d)
+}
+
+fn check(c: &Case, st: &mut Stats) -> Result<(), String> {
+    let al = al_of(c.p);
+    let Some(want) = in_domain(c) else {
+        st.class("discarded: outside the property's domain");
+        return Ok(());
+    };
+    st.class("in domain");
+    let kl1 = rf::kl(c.ws, want.t, al, 1);
+    let big_q = c.ws as u128 / (al as u128 * ((want.t + al * want.n_max - 1) / (al * want.n_max)) as u128) >= 1 << 32;
+    st.class_if(kl1.is_none(), "KL(1) undefined, KL(N_max) defined");
+    st.class_if(big_q, "WS/(Al*sub-symbol) >= 2^32");
+    st.class_if(want.n > 1, "N>1");
+    st.class_if(want.z > 1, "Z>1");
+    if kl1.is_none() || big_q || want.n > 1 {
+        st.nt(fnv_u64s(&[c.f, c.p as u64, c.ws]));
+    }
+    st.sample(|| json!({"F": c.f, "P'": c.p, "WS": c.ws, "expected": {"T": want.t, "Z": want.z, "N": want.n, "Al": al}}));
+
+    let got = catch(|| raptorq::verif::generate_encoding_parameters(c.f, c.p, c.ws))
+        .map_err(|p| format!("panic inside the domain for F={} P'={} WS={}: {p} (RFC 4.3 gives T={} Z={} N={})", c.f, c.p, c.ws, want.t, want.z, want.n))?;
+    let al_got = got.symbol_alignment() as u64;
+    if al_got == 0 || got.symbol_size() as u64 % al_got != 0 {
+        return Err(format!("T={} is not a multiple of the reported Al={}", got.symbol_size(), al_got));
+    }
+    if got.symbol_size() as u64 != (c.p as u64) - (c.p as u64) % al_got {
+        return Err(format!("T={} is not the largest multiple of Al={} not above P'={}", got.symbol_size(), al_got, c.p));
+    }
+    if got.transfer_length() != c.f {
+        return Err("derived configuration does not carry the transfer length".into());
+    }
+    // evaluate the RFC derivation with the alignment the library reports (SS = Al, the
+    // library's fixed choice)
+    let want = if al_got == al {
+        want
+    } else {
+        match rf::derive(c.f, c.p as u64, c.ws, al_got, al_got) {
+            Some(d) if d.z >= 1 && d.z <= 255 => d,
+            _ => return Ok(()),
+        }
+    };
+    if (got.symbol_size() as u64, got.source_blocks() as u64, got.sub_blocks() as u64)
+        != (want.t, want.z, want.n)
+    {
+        return Err(format!(
+            "F={} P'={} WS={}: derived (T={}, Z={}, N={}, Al={}), RFC 4.3 gives (T={}, Z={}, N={})",
+            c.f, c.p, c.ws, got.symbol_size(), got.source_blocks(), got.sub_blocks(), al_got, want.t, want.z, want.n
+        ));
+    }
+    // a larger memory budget never yields more source blocks
+    if c.ws2 >= c.ws {
+        let c2 = Case { ws: c.ws2, ..c.clone() };
+        if in_domain(&c2).is_some() {
+            st.class("monotonicity pair");
+            let got2 = catch(|| raptorq::verif::generate_encoding_parameters(c.f, c.p, c.ws2))
+                .map_err(|p| format!("panic inside the domain for F={} P'={} WS={}: {p}", c.f, c.p, c.ws2))?;
+            if got2.source_blocks() > got.source_blocks() {
+                return Err(format!(
+                    "larger memory budget gives more blocks: WS={} -> Z={}, WS={} -> Z={}",
+                    c.ws, got.source_blocks(), c.ws2, got2.source_blocks()
+                ));
+            }
+        }
+    }
+    // the public entry point with the default budget
+    if c.ws == 10 * 1024 * 1024 {
+        st.class("with_defaults");
+        let d = catch(|| ObjectTransmissionInformation::with_defaults(c.f, c.p))
+            .map_err(|p| format!("with_defaults panicked: {p}"))?;
+        if d != got {
+            return Err("with_defaults differs from the derivation with WS = 10 MiB".into());
+        }
+    }
+    Ok(())
+}
+
+// --- round trip through EncoderBuilder / Decoder ------------------------------------------------
+
+#[derive(Debug, Clone)]
+pub struct RtCase {
+    len: usize,
+    p: u16,
+    ws: u64,
+    seed: u64,
+}
+
+fn rt_strategy() -> impl Strategy<Value = RtCase> {
+    (
+        prop_oneof![1usize..=300, 1usize..=20_000, 1usize..=120_000],
+        prop_oneof![8u16..=63, 64u16..=200, 64u16..=1500],
+        any::<u64>(),
+        any::<u64>(),
+    )
+        .prop_map(|(len, p, r, seed)| {
+            let al = al_of(p);
+            let t = p as u64 - p as u64 % al;
+            let n_max = (t / (al * al)).max(1);
+            let sub = |n: u64| (t + al * n - 1) / (al * n);
+            // budgets that force several blocks / several sub-blocks for this object size
+            let kt = (len as u64 + t - 1) / t;
+            let ws = match r % 5 {
+                0 => 10 * al * sub(n_max) + r % 50,
+                1 => (kt / 3 + 10) * al * sub(1 + (r >> 8) % n_max),
+                2 => (kt / 2 + 10) * t,
+                3 => 10 * 1024 * 1024,
+                _ => (kt + 12) * al * sub(1 + (r >> 8) % n_max),
+            };
+            RtCase { len, p, ws, seed }
+        })
+}
+
+fn rt_check(c: &RtCase, st: &mut Stats) -> Result<(), String> {
+    let case = Case { f: c.len as u64, p: c.p, ws: c.ws, ws2: c.ws };
+    let Some(want) = in_domain(&case) else {
+        st.class("discarded: outside the property's domain");
+        return Ok(());
+    };
+    // keep the work per case bounded: at most ~6000 symbols in total
+    if want.kt > 6000 {
+        st.class("discarded: too many symbols for the round-trip budget");
+        return Ok(());
+    }
+    let data = SplitMix::new(c.seed).bytes(c.len);
+    let mut b = EncoderBuilder::new();
+    b.set_decoder_memory_requirement(c.ws);
+    b.set_max_packet_size(c.p);
+    let enc = catch(|| b.build(&data)).map_err(|p| format!("EncoderBuilder::build panicked inside the domain (len={} P'={} WS={}): {p}", c.len, c.p, c.ws))?;
+    let cfg = enc.get_config();
+    st.class_if(want.z > 1, "Z>1");
+    st.class_if(want.n > 1, "N>1");
+    if want.z > 1 || want.n > 1 {
+        st.nt(fnv_u64s(&[c.len as u64, c.p as u64, c.ws]));
+    }
+    st.sample(|| json!({"len": c.len, "P'": c.p, "WS": c.ws, "derived": {"T": cfg.symbol_size(), "Z": cfg.source_blocks(), "N": cfg.sub_blocks(), "Al": cfg.symbol_alignment()}}));
+    if (cfg.symbol_size() as u64, cfg.source_blocks() as u64, cfg.sub_blocks() as u64) != (want.t, want.z, want.n) {
+        return Err(format!(
+            "builder derived (T={}, Z={}, N={}), RFC 4.3 gives (T={}, Z={}, N={}) for len={} P'={} WS={}",
+            cfg.symbol_size(), cfg.source_blocks(), cfg.sub_blocks(), want.t, want.z, want.n, c.len, c.p, c.ws
+        ));
+    }
+    // decode from source packets with one erased per block, replaced by repair packets
+    let r = catch(|| {
+        let mut dec = Decoder::new(cfg);
+        let mut rng = SplitMix::new(c.seed ^ 0xABCD);
+        let mut out = None;
+        for blk in enc.get_block_encoders() {
+            let src = blk.source_packets();
+            let drop = rng.below(src.len() as u64) as usize;
+            for (i, p) in src.into_iter().enumerate() {
+                if i != drop {
+                    out = dec.decode(p);
+                }
+            }
+            for p in blk.repair_packets(rng.below(1000) as u32, 3) {
+                if let Some(o) = dec.decode(p) {
+                    out = Some(o);
+                }
+            }
+        }
+        out
+    })
+    .map_err(|p| format!("round trip panicked: {p}"))?;
+    match r {
+        Some(o) if o == data => Ok(()),
+        Some(_) => Err(format!("round trip returned different bytes (len={} P'={} WS={})", c.len, c.p, c.ws)),
+        None => {
+            // three repair symbols for one erasure: failure odds ~1e-7 per block; an undecodable
+            // set is not a C14 violation, so it is only counted
+            st.class("round trip undecodable with 2 spare symbols (counted, not judged)");
+            Ok(())
+        }
+    }
+}
+
+fn to_json(c: &Case) -> Value {
+    json!({"f": c.f, "p": c.p, "ws": c.ws, "ws2": c.ws2})
+}
+
+fn signature(c: &Case, msg: &str) -> String {
+    let al = al_of(c.p);
+    let t = c.p as u64 - c.p as u64 % al;
+    let n_max = (t / (al * al)).max(1);
+    let q = |n: u64| c.ws as u128 / (al as u128 * ((t + al * n - 1) / (al * n)) as u128);
+    let wide = q(1) >= 1 << 32 || q(n_max) >= 1 << 32;
+    if msg.starts_with("panic inside the domain") {
+        if wide {
+            return "derive:panic:quotient>=2^32".into();
+        }
+        if rf::kl(c.ws, t, al, 1).is_none() {
+            return "derive:panic:KL(1)-undefined".into();
+        }
+        return "derive:panic:other".into();
+    }
+    if msg.contains("RFC 4.3 gives") {
+        if wide {
+            return "derive:mismatch:quotient>=2^32".into();
+        }
+        return "derive:mismatch".into();
+    }
+    if msg.starts_with("larger memory budget") {
+        return "derive:monotonicity".into();
+    }
+    format!("derive:{}", msg.split(':').next().unwrap_or(""))
+}
+
+fn regression_cases() -> Vec<Case> {
+    vec![
+        Case { f: 10_000, p: 16, ws: 1 << 32, ws2: 1 << 33 },
+        Case { f: 10_000, p: 1024, ws: 1000, ws2: 2000 },
+        Case { f: 10_000, p: 1024, ws: 10 * 1024 * 1024, ws2: u64::MAX },
+        Case { f: 1, p: 1, ws: 10, ws2: 10 },
+        Case { f: 942574504275, p: 65535, ws: u64::MAX, ws2: u64::MAX },
+        Case { f: 123_456_789, p: 1400, ws: 1 << 20, ws2: 1 << 40 },
+    ]
+}
+
+pub fn run(ctx: &Ctx, rep: &mut Report) {
+    rep.rule = "generated (F, P', WS): P' over 1..=65535 weighted to 1..70 / 63,64,65 / powers of two +-1; WS constructed at and next to K'*Al*ceil(T/(Al*n)) for table K' and n in 1..=N_max, next to 2^32-multiples of the sub-symbol budget, log-uniform over u64, u64::MAX; F at and next to Z*KL(N_max)*T, uniform in the domain, small. Cases outside the property's domain (KL(N_max) undefined, Z > 255, F > 56403*255*T) are counted and discarded. Oracle: RFC 4.3 derivation in u128 (KL(n) undefined when no K' fits), plus monotonicity in WS, plus EncoderBuilder/Decoder round trips. Non-trivial = KL(1) undefined while KL(N_max) defined, or WS/(Al*sub-symbol) >= 2^32, or N > 1 (derivation), Z>1 or N>1 (round trip); distinct by (F,P',WS).".into();
+    rep.assumptions.push("Al and SS are the library's fixed choice (8,8) for P' >= 64 and (1,1) below; the RFC derivation is evaluated with the Al the library reports and SS = Al".into());
+    let mut st = Stats::new();
+    let started = std::time::Instant::now();
+    let mut failures = vec![];
+    for c in regression_cases() {
+        st.eval();
+        let r = match catch(|| check(&c, &mut st)) {
+            Ok(r) => r,
+            Err(p) => Err(format!("panic: {p}")),
+        };
+        if let Err(m) = r {
+            failures.push(crate::util::simple_failure("derive", m.clone(), signature(&c, &m), to_json(&c)));
+        }
+    }
+    rep.absorb("regression", crate::util::SubOutcome { stats: st, failures, wall_s: started.elapsed().as_secs_f64() });
+    let n = ctx.tier.pick(300_000u64, 20_000_000);
+    rep.absorb("derive", run_sharded("C14", "derive", ctx.seed, n, 64, strategy, check, to_json, signature));
+    let n = ctx.tier.pick(300u64, 5_000);
+    rep.absorb(
+        "roundtrip",
+        run_sharded(
+            "C14", "roundtrip", ctx.seed, n, 16, rt_strategy, rt_check,
+            |c| json!({"len": c.len, "p": c.p, "ws": c.ws, "seed": c.seed}),
+            |_, m| format!("roundtrip:{}", m.split('(').next().unwrap_or("").trim()),
+        ),
+    );
+}
+
+pub fn replay(sub: &str, case: &Value) -> Result<(), String> {
+    let mut st = Stats::new();
+    match sub {
+        "roundtrip" => rt_check(
+            &RtCase {
+                len: case["len"].as_u64().unwrap() as usize,
+                p: case["p"].as_u64().unwrap() as u16,
+                ws: case["ws"].as_u64().unwrap(),
+                seed: case["seed"].as_u64().unwrap(),
+            },
+            &mut st,
+        ),
+        _ => check(
+            &Case {
+                f: case["f"].as_u64().unwrap(),
+                p: case["p"].as_u64().unwrap() as u16,
+                ws: case["ws"].as_u64().unwrap(),
+                ws2: case["ws2"].as_u64().unwrap(),
+            },
+            &mut st,
+        ),
+    }
 }
